@@ -1,10 +1,18 @@
 """what MANIFEST.json claims, per property"""
-SOURCE_COMMITS = ["586d1d8", "84b55ce"]
+SOURCE_COMMITS = ["586d1d8", "84b55ce", "952a903"]
 NOT_APPLICABLE = {}
 PROOF_NOTE = ("Trusted: Lean 4.33 kernel and the axioms printed per theorem (propext, Quot.sound, Classical.choice at most); the statements in lean/Proofs/Props; "
               "the hand-written model is validated against the C by differential execution (bounded by generator quality), not derived from it; "
               "translator and harness themselves.")
 CHECKS = {
+ "C01": dict(category="proof",
+   text=("Kernel-checked: every decoder table extracted from today's source (LZX position slots/extra bits/position base, Quantum position and length tables, "
+         "deflate length/distance tables, bit-length order, LSB masks) equals its closed form from the format documents, and the CAB record layout constants are those the "
+         "container model hard-codes. The container model (headers, block reader with reserves/split blocks/checksums, feeder, extract, merge) and the stored and MSZIP decoders "
+         "are executable Lean and agree with the implementation on every generated plan (all methods, block types, windows, reserves, split sets, parameter settings, both systems); "
+         "the implementation is judged against the plan itself (listing and bytes). Bit-level decoder round trips are not theorems yet."),
+   note=PROOF_NOTE + " Quantum's arithmetic coder has no independent specification (the generator's encoder inverts qtmd.c).",
+   technique="Lean 4 (decide +kernel over regenerated tables; executable model) + plan-oracle and model/implementation differential runs"),
  "C18": dict(category="proof",
    text=("Theorems on the CAB model, for every file content: a listing accepted in strict mode is accepted identically in salvage mode; a data block the strict reader "
          "delivers is delivered identically under any combination of ignore-checksum / ignore-blocksize. The lift through feeder, decoders and extract is checked by "
